@@ -154,6 +154,7 @@ func GetMacroNode(name string, params []string, defaults map[string]Node, body [
 	node.defaults = defaults
 	node.body = body
 	node.line = line
+	node.siblings = nil
 	return node
 }
 
@@ -166,6 +167,7 @@ func ReleaseMacroNode(node *MacroNode) {
 	node.params = nil
 	node.defaults = nil
 	node.body = nil
+	node.siblings = nil
 	MacroNodePool.Put(node)
 }
 
